@@ -827,12 +827,16 @@ class Engine:
     def run_steps(self) -> None:
         """Run all the steps in the simulation."""
         layers = self._step_graph.get_execution_layers()
+        # the steps that exist when the phase begins; a step created
+        # during the phase (even at a path that was just vacated) first
+        # runs in the next phase
+        steps_at_start = dict(self._step_paths)
         for layer in layers:
             deferred_updates: List[Tuple[Defer, Store]] = []
             for path in layer:
                 step = self._step_paths.get(path)
-                if not step:
-                    # Step was deleted by a previous step.
+                if not step or step is not steps_at_start.get(path):
+                    # Step was deleted (or replaced) by a previous step.
                     continue
                 # Timestep shouldn't influence steps.
                 # TODO(jerry): Do something cleaner than having
